@@ -274,12 +274,7 @@ func check(sc scenario, x *sched.Exec, st *state) []failure {
 	return fs
 }
 
-func stripLine(site string) string {
-	if i := strings.LastIndex(site, ":"); i > 0 {
-		return site[:i]
-	}
-	return site
-}
+func stripLine(site string) string { return sched.SiteStable(site) }
 
 type rec struct {
 	Kind     string         `json:"kind"`
